@@ -13,6 +13,7 @@ done={
  'C06':('fault_enumeration',EX,"every 1-bit, 2-bit and <=16-bit burst corruption (within stated windows for long frames) of a request/response library, both roles; independent bit-wise CRC-16 in the reference framer"),
  'C07':('exploration',EX,"exhaustive 1-deviation (thorough: 2-deviation) neighbourhood of valid traffic plus all short byte strings, 4 role x framing combinations, decode levels, with panics caught per poll, a poll budget, a wall-clock watchdog for spins inside one poll, and a shutdown check"),
  'C08':('model_checking',MC,"all request sequences up to depth D x policy set (all 256 per-function masks in thorough) x roles; interleaved authorization/handler log, replies and state compared with the reference server"),
+ 'C09':('exploration',"exhaustive enumeration of the finite TLS configuration grid (all 336 cells plus extra probes) over real loopback sockets against independent rustls peers; reference admission predicate per cell","finite configuration space enumerated completely; rustls/webpki/OS trusted; verdict observed through answered Modbus requests, negotiated version and the role seen by the authorization handler"),
  'C10':('model_checking',MC,"all event sequences up to depth D with <= K deviations over a 23-symbol alphabet on the production TcpChannelTask (2 handles, 3 submit styles, queue capacity 2/16, N none/1/2), each extended by an epilogue to a finite horizon; completions compared with the reference client model after every event"),
  'C11':('model_checking',MC,"all sequences up to depth D over submit / matching / stale / future / duplicate / idle frames / partial replies / reconnect, wire log and results compared with the reference client model; plus a 65,600-round path across the transaction-id wrap"),
  'C12':('model_checking',MC,"all sequences up to depth D over submits with timeouts 1/7/1000 ms, reply variants and clock advances to, before and past the deadline, for N in none/1/2/3, under tokio's paused clock; completion instants and connection drops compared with the reference client model"),
@@ -42,6 +43,8 @@ for p in props:
     i=p['id']
     if i in done:
         cat,tech,text=done[i]
+        if i=='C09':
+            tech,text=done[i][1],done[i][2]
         m['checks'].append({
           "property_id":i,
           "quick_cmd":f"./check {i} quick",
